@@ -242,6 +242,11 @@ func Open(dir string, opts ...walOpt) (*WAL, error) {
 	// don't need to jump through the mutateState hoops yet!
 	w.s.Store(&newState)
 
+	// Delete any unused segment files left over after a crash or a failed
+	// create. This must come before the rotation below, which would otherwise
+	// collide with a left-over file that has the name of the next segment.
+	w.deleteSegments(toDelete)
+
 	if recoveredTail {
 		// If we crashed (or were closed) after an append sealed the tail but
 		// before the rotation it triggered was committed, the recovered tail is
@@ -260,9 +265,6 @@ func Open(dir string, opts ...walOpt) (*WAL, error) {
 			}
 		}
 	}
-
-	// Delete any unused segment files left over after a crash.
-	w.deleteSegments(toDelete)
 
 	// Start the rotation routine
 	go w.runRotate()
